@@ -22,7 +22,7 @@ INFO = {
                   'db.shelve.comms.Worker.do (get/set/upd/table)', 'db.shelve.util.append/construct/dissect/prime_keys/subset', 'db.shelve.remove', 'db.util.encode/move/decode',
                   'dawgie.Value.__getstate__/__setstate__'],
     'bounds': {
-        'quick': 'contents distinct per update, and a second family with contents repeating across runs/targets (shared blobs); 3 authors (ta.a, ta.a2, tb.a), targets T1/T2, run ids {1,2,10} (+99 requested but never stored), histories of <=3 operations from 18 kinds, 24 loads after each',
+        'quick': 'contents distinct per update, and a second family with two contents shared by all keys and alternating per step (a key is rewritten with a content already in the store); 3 authors (ta.a, ta.a2, tb.a), targets T1/T2, run ids {1,2,10} (+99 requested but never stored), histories of <=3 operations from 18 kinds, 24 loads after each',
         'thorough': 'same world, histories of <=4 operations whose first operation is an update of author ta.a (all 18 kinds afterwards)',
     },
     'assumptions': [
@@ -46,11 +46,11 @@ def obligations(tier):
         if tier == 'quick':
             out.append(ob.make(f'k{k}-{first}', 'hist', 'vp.harness.c06:body', sig, pre, f"{{'k': {k}, 'sel': [{first}, {', '.join(free)}]}}", timeout=900))
         else:
-            for second in range(n if first < 4 else 0):
+            for second in range(n if first < 2 else 0):
                 out.append(ob.make(f'k{k}-{first}.{second}', 'hist', 'vp.harness.c06:body', ', '.join(f'{v}: int' for v in free[1:]), [' and '.join(f'0 <= {v} < {n}' for v in free[1:])],
                                    f"{{'k': {k}, 'sel': [{first}, {second}, {', '.join(free[1:])}]}}", timeout=3000))
     # same world with contents that repeat across runs and targets (shared blobs)
-    for first in range(4 if tier == 'quick' else n):
+    for first in range(4):
         out.append(ob.make(f'dup-k{k}-{first}', 'hist', 'vp.harness.c06:body', sig, pre, f"{{'k': {k}, 'sel': [{first}, {', '.join(free)}], 'dup': True}}", timeout=900 if tier == 'quick' else 3000))
     allv = [f'e{i}' for i in range(k)]
     out.append(ob.make('hist', 'hist', 'vp.harness.c06:body', ', '.join(f'{v}: int' for v in allv), [' and '.join(f'0 <= {v} < {n}' for v in allv)],
